@@ -38,6 +38,11 @@ Module K.
   Definition k_GPOS4 := Eval compute in s2l "GPOS4".
   Definition k_arrow := Eval compute in s2l " -> ".
   Definition k_comma := Eval compute in s2l ", ".
+  Definition k_to := Eval compute in s2l "to".
+  Definition k_mark := Eval compute in s2l "mark".
+  Definition k_base := Eval compute in s2l "base".
+  Definition k_first := Eval compute in s2l "first".
+  Definition k_second := Eval compute in s2l "second".
   Definition k_class := Eval compute in s2l "class".
   Definition k_inputclass := Eval compute in s2l "inputclass".
   Definition k_backtrackclass := Eval compute in s2l "backtrackclass".
@@ -259,7 +264,17 @@ Inductive chain_sub : Type :=
 | Chain2 (cov : list N) (btc inc lac : list (list N)) (rules : list (list chain_rule))
 | Chain3 (bt input la : list (list N)) (acts : actions).
 
+(* GPOS subtables beyond type 1.  An anchor is (X, Y); an entry/exit record
+   is ((X1, Y1), (X2, Y2)). *)
+Definition anchor : Type := (Z * Z)%type.
+Inductive pos_sub : Type :=
+| Gpos3_1 (cov : list N) (records : list (anchor * anchor))
+(* mark-to-base attachment: mark glyphs with (class, anchor), base glyphs with
+   one anchor per mark class *)
+| Gpos4_1 (mcov : list N) (marks : list (N * anchor)) (bcov : list N) (bases : list (list anchor)).
+
 Inductive subtable : Type :=
+| Pos (p : pos_sub)
 | Chn (h : chain_sub)
 | Ctx (c : ctx_sub)
 | Gsub1_1 (cov : list N) (delta : N)
@@ -338,6 +353,14 @@ Definition digits_signed (z : Z) : list N :=
   match z with
   | Z0 => 43 :: digits 0
   | Zpos p => 43 :: digits (Npos p)
+  | Zneg p => 45 :: digits (Npos p)
+  end.
+
+(* "%d" *)
+Definition digits_z (z : Z) : list N :=
+  match z with
+  | Z0 => digits 0
+  | Zpos p => digits (Npos p)
   | Zneg p => 45 :: digits (Npos p)
   end.
 
@@ -998,6 +1021,114 @@ Section Parser.
     subs <- chainctx_loop fuel ([], []) ([], []) ([], []) [] ;;
     ret (mk_lookup ty flags subs).
 
+  (* ---- GPOS3 (readGpos3) ---- *)
+  (* readGlyph *)
+  Definition read_glyph (fuel : nat) : P N :=
+    gids <- read_glyph_list fuel ;;
+    match gids with [g] => ret g | _ => fatal end.
+  (* requiredIdentifier *)
+  Definition required_ident (s : list N) : P unit :=
+    t <- read ;; if is_ident t s then ret tt else fatal.
+
+  Fixpoint gpos3_recs (fuel : nat) (data : list (N * (anchor * anchor))) : P (list (N * (anchor * anchor))) :=
+    match fuel with
+    | O => out_of_fuel
+    | S f =>
+        g <- read_glyph fuel ;;
+        optional TColon ;;;
+        x1 <- read_int16 ;; required TComma ;;; y1 <- read_int16 ;;
+        required_ident k_to ;;;
+        x2 <- read_int16 ;; required TComma ;;; y2 <- read_int16 ;;
+        b <- optional TSemi ;;
+        if b then (optional TEOL ;;; gpos3_recs f (set_key g ((x1, y1), (x2, y2)) data))
+        else ret (set_key g ((x1, y1), (x2, y2)) data)
+    end.
+  Fixpoint gpos3_loop (fuel : nat) (subs : list subtable) : P (list subtable) :=
+    match fuel with
+    | O => out_of_fuel
+    | S f =>
+        data <- gpos3_recs fuel [] ;;
+        let cov := build_cov data in
+        let sub := Pos (Gpos3_1 cov (map (fun g => get_or0 ((0, 0), (0, 0))%Z g data) cov)) in
+        b <- optional TOr ;;
+        if b then (optional TEOL ;;; gpos3_loop f (subs ++ [sub])) else ret (subs ++ [sub])
+    end.
+  Definition read_gpos3 (fuel : nat) : P lookup :=
+    flags <- lookup_header fuel ;;
+    subs <- gpos3_loop fuel [] ;;
+    ret (mk_lookup 3 flags subs).
+
+  (* ---- GPOS4 (readGpos4) ---- *)
+  Definition read_uint16 : P N :=
+    t <- read ;;
+    if ityp_eqb (ttyp t) TInt then
+      match atoi (tval t) with
+      | Some x => if (x <? 0)%Z || (65535 <? x)%Z then fatal else ret (Z.to_N x)
+      | None => fatal
+      end
+    else fatal.
+  (* len(gs) > 0 && gs[len(gs)-1] >= gid *)
+  Definition not_after (gl : list N) (g : N) : bool :=
+    match last_opt gl with Some q => g <=? q | None => false end.
+  Fixpoint gpos4_marks (fuel : nat) (gl : list N) (ma : list (N * anchor)) : P (list N * list (N * anchor)) :=
+    match fuel with
+    | O => out_of_fuel
+    | S f =>
+        b <- optional_ident k_mark ;;
+        if b then
+          g <- read_glyph fuel ;;
+          if not_after gl g then fatal
+          else
+            optional TColon ;;;
+            cls <- read_uint16 ;; required TAt ;;; x <- read_int16 ;; required TComma ;;; y <- read_int16 ;;
+            optional TSemi ;;; optional TEOL ;;;
+            gpos4_marks f (gl ++ [g]) (ma ++ [(cls, (x, y))])
+        else ret (gl, ma)
+    end.
+  (* numClasses := len(classesSeen); every class below it must have been seen *)
+  Definition num_classes (cl : list N) : nat := length (uniq (isort cl)).
+  Definition classes_complete (cl : list N) : bool :=
+    forallb (fun c => existsb (N.eqb (N.of_nat c)) cl) (seq 0 (num_classes cl)).
+  Fixpoint gpos4_anchors (n : nat) (i0 : bool) : P (list anchor) :=
+    match n with
+    | O => ret []
+    | S n' =>
+        (if i0 then ret false else optional TComma) ;;;
+        required TAt ;;; x <- read_int16 ;; required TComma ;;; y <- read_int16 ;;
+        r <- gpos4_anchors n' false ;; ret ((x, y) :: r)
+    end.
+  Fixpoint gpos4_bases (fuel : nat) (nc : nat) (gl : list N) (ba : list (list anchor)) : P (list N * list (list anchor)) :=
+    match fuel with
+    | O => out_of_fuel
+    | S f =>
+        b <- optional_ident k_base ;;
+        if b then
+          g <- read_glyph fuel ;;
+          if not_after gl g then fatal
+          else
+            optional TColon ;;;
+            an <- gpos4_anchors nc true ;;
+            optional TSemi ;;; optional TEOL ;;;
+            gpos4_bases f nc (gl ++ [g]) (ba ++ [an])
+        else ret (gl, ba)
+    end.
+  Fixpoint gpos4_loop (fuel : nat) (subs : list subtable) : P (list subtable) :=
+    match fuel with
+    | O => out_of_fuel
+    | S f =>
+        mm <- gpos4_marks fuel [] [] ;;
+        if classes_complete (map fst (snd mm)) then
+          bb <- gpos4_bases fuel (num_classes (map fst (snd mm))) [] [] ;;
+          let sub := Pos (Gpos4_1 (fst mm) (snd mm) (fst bb) (snd bb)) in
+          b <- optional TOr ;;
+          if b then (optional TEOL ;;; gpos4_loop f (subs ++ [sub])) else ret (subs ++ [sub])
+        else fatal
+    end.
+  Definition read_gpos4 (fuel : nat) : P lookup :=
+    flags <- lookup_header fuel ;;
+    subs <- gpos4_loop fuel [] ;;
+    ret (mk_lookup 4 flags subs).
+
   (* ---- parse() ---- *)
   Definition unmodelled {A} : P A := fun _ => PUnmodelled.
   Fixpoint parse_loop (fuel : nat) (acc : list lookup) : P (list lookup) :=
@@ -1018,8 +1149,8 @@ Section Parser.
             else if list_eqb (tval t) k_GSUB6 then (l <- read_chainctx fuel 6 ;; parse_loop f (acc ++ [l]))
             else if list_eqb (tval t) k_GPOS1 then (l <- read_gpos1 fuel ;; parse_loop f (acc ++ [l]))
             else if list_eqb (tval t) k_GPOS2 then unmodelled
-            else if list_eqb (tval t) k_GPOS3 then unmodelled
-            else if list_eqb (tval t) k_GPOS4 then unmodelled
+            else if list_eqb (tval t) k_GPOS3 then (l <- read_gpos3 fuel ;; parse_loop f (acc ++ [l]))
+            else if list_eqb (tval t) k_GPOS4 then (l <- read_gpos4 fuel ;; parse_loop f (acc ++ [l]))
             else fatal
         | _ => fatal
         end
@@ -1264,6 +1395,7 @@ Section Explain.
 
   Definition explain_subtable (s : subtable) : list N :=
     match s with
+    | Pos _ => []
     | Chn h => explain_chain h
     | Ctx c => explain_ctx c
     | Gsub1_1 cov delta =>
@@ -1281,12 +1413,49 @@ Section Explain.
     | Gpos1_2 cov adj => explain_entries write_value_record (combine cov adj) true
     end.
 
+  (* Gpos3_1: "\n\tA: 1,1 to 2,2;\n\tB: ..."; the first record of a later
+     subtable follows " ||\n\t" directly *)
+  Fixpoint explain_gpos3 (recs : list (N * (anchor * anchor))) (first : bool) (j0 : bool) : list N :=
+    match recs with
+    | [] => []
+    | (g, ((x1, y1), (x2, y2))) :: r =>
+        (if j0 then [] else [59]) ++ (if first || negb j0 then [10; 9] else [])
+          ++ write_glyph g ++ [58; 32] ++ digits_z x1 ++ [44] ++ digits_z y1 ++ 32 :: k_to ++ [32]
+          ++ digits_z x2 ++ [44] ++ digits_z y2 ++ explain_gpos3 r first false
+    end.
+  (* Gpos4_1: one line per mark and per base glyph, each started by "\n\t"
+     except the very first of a later subtable *)
+  Fixpoint explain_lines (items : list (list N)) (first : bool) : list N :=
+    match items with
+    | [] => []
+    | it :: r => (if first then [10; 9] else []) ++ it ++ explain_lines r true
+    end.
+  Definition explain_mark (e : N * (N * anchor)) : list N :=
+    k_mark ++ [32] ++ write_glyph (fst e) ++ [58; 32] ++ digits (fst (snd e)) ++ [64]
+      ++ digits_z (fst (snd (snd e))) ++ [44] ++ digits_z (snd (snd (snd e))) ++ [59].
+  Definition explain_anchor (a : anchor) : list N :=
+    [32; 64] ++ digits_z (fst a) ++ [44] ++ digits_z (snd a).
+  Definition explain_base (e : N * list anchor) : list N :=
+    k_base ++ [32] ++ write_glyph (fst e) ++ [58] ++ concat (map explain_anchor (snd e)) ++ [59].
+  Definition explain_pos (p : pos_sub) (first : bool) : list N :=
+    match p with
+    | Gpos3_1 cov records => explain_gpos3 (combine cov records) first true
+    | Gpos4_1 mc ma bc ba =>
+        explain_lines (map explain_mark (combine mc ma) ++ map explain_base (combine bc ba)) first
+    end.
+  (* a subtable at position i (first <-> i = 0) of its lookup *)
+  Definition explain_subtablep (s : subtable) (first : bool) : list N :=
+    match s with
+    | Pos p => explain_pos p first
+    | _ => explain_subtable s
+    end.
+
   (* subtables of one lookup: header before the first, " ||\n\t" between *)
   Fixpoint explain_subs (hdr : list N) (subs : list subtable) (first : bool) : list N :=
     match subs with
     | [] => []
     | s :: r =>
-        (if first then hdr else k_or) ++ explain_subtable s ++ explain_subs hdr r false
+        (if first then hdr else k_or) ++ explain_subtablep s first ++ explain_subs hdr r false
     end.
   Definition explain_lookup (kw : list N) (l : lookup) : list N :=
     explain_subs (kw ++ digits (l_type l) ++ [58] ++ explain_flags (l_flags l)) (l_subs l) true.
